@@ -685,3 +685,63 @@ def rule_M6(ctx):
                              'survives when the write is skipped' % (f.q, m, ce.get('q')))
     res.analysed['conditional_member_bindings'] = n
     return res, n
+
+
+# ------------------------------------------------------------------ M7: mask-gated placeholders
+def rule_M7(ctx, classes=None):
+    """a local that holds a literal placeholder (`real AB1 = 0`) and is given its value only under bits of the
+    incoming mask must not reach an output, a return value, a branch or a member on a path that does not establish
+    those bits: otherwise the value returned for one quantity depends on which other quantities were requested."""
+    res = RuleResult('M7', 'mask independence of intermediates: a placeholder-initialised local that is computed only '
+                           'under mask bits G1 is consumed only on paths that establish G1 (else an output requested '
+                           'through other bits silently uses the placeholder)')
+    lc = get_licctx(ctx)
+    classes = classes or [NS + c for c in ('Geodesic', 'GeodesicLine', 'GeodesicExact', 'GeodesicLineExact',
+                                           'Rhumb', 'RhumbLine')]
+    ef = getattr(lc, '_ef', None)
+    if ef is None:
+        ef = lc._ef = entry_facts(lc, set(LIC_CLASSES))
+    nfun = 0
+    ncand = 0
+    for cls in classes:
+        U, per = lc.object_U(cls)
+        ax = lc.axioms(cls)
+        member_U = {'this.' + m: u for m, u in U.items()}
+        for f in sorted(ctx.lib_fns(), key=lambda x: (x.file, x.line)):
+            if f.cls != cls or not f.cfg or f.is_ctor or f.is_dtor or f.d.get('implicit'):
+                continue
+            if not any(p['name'] in ('outmask', 'caps') for p in f.params):
+                continue
+            fl = lc.flow(f, ef.get(f.usr))
+            base = Lic(ctx, f, fl, member_U=member_U, gated=lc.gated, ax=ax, member_writes=lc.member_writes,
+                       stale_zero=False)
+            lic = Lic(ctx, f, fl, member_U=member_U, gated=lc.gated, ax=ax, member_writes=lc.member_writes,
+                      stale_zero='mask')
+            nfun += 1
+            names = {}
+            for i, n in f.all_nodes():
+                if n['k'] == 'DeclStmt':
+                    for d in n['decls']:
+                        if d['d'] in lic.zero_then_assigned:
+                            names[d['d']] = d.get('name', '?')
+            ncand += len(names)
+            res.obligations += len(names)
+            old = {(e, w) for e, w, _, _ in base.reports}
+            bad = {}
+            for e, what, vu, wit in lic.reports:
+                if (e, what) in old:
+                    continue
+                culprits = sorted({f.nodes[j]['name'] for j in f.walk(e)
+                                   if f.nodes[j]['k'] == 'DeclRefExpr' and f.nodes[j].get('d') in names})
+                who = ','.join(culprits) or _culprits(f, lic, e, vu, member_U)
+                bad.setdefault(who, (e, what, vu, wit))
+            res.discharged += len(names) - min(len(names), len(bad))
+            for who, (e, what, vu, wit) in sorted(bad.items()):
+                res.fail(f.q, who, f.loc(e),
+                         'a placeholder (%s are `= 0` until computed under mask bits) reaches a %s through %s on a path '
+                         'that does not establish those bits (placeholder still in place when %s; path facts %s)'
+                         % (', '.join(sorted(names.values())), what, who, _show(vu), _showl(wit)))
+            if names and len(res.samples) < 6:
+                res.samples.append({'fn': f.q, 'placeholders': sorted(names.values())})
+    res.analysed.update({'gated_functions': nfun, 'mask_gated_placeholders': ncand})
+    return res, nfun, ncand
